@@ -28,6 +28,7 @@ type field struct {
 	CountOf string  // this integer field holds the number of elements of list field CountOf
 	Elem    []field // structlist: the integer fields of the element structure
 	ElemT   string
+	StrFmt  string // SMB_STRING field: the buffer format constant Marshal sets for it ("" = none)
 	LenBy   string // byte buffer: the integer field that holds its length (read from Unmarshal)
 	Rest    bool   // byte buffer that the decoder takes as "everything that is left" of its block
 	FixLen  int    // byte buffer whose length the decoder fixes (pad conventions); -1 = free
@@ -120,6 +121,7 @@ func main() {
 	relRe := regexp.MustCompile(`c\.(\w+) = raw\w+\[offset ?: ?offset ?\+ ?int\(c\.(\w+)\)\]`)
 	cntRe := regexp.MustCompile(`for i := 0; i < int\(c\.(\w+)\); i\+\+ \{([\s\S]*?)\n\t\}`)
 	cntBodyRe := regexp.MustCompile(`c\.(\w+) = append\(c\.|c\.(\w+)\[i\] =`)
+	fmtRe := regexp.MustCompile(`c\.(\w+)\.SetBufferFormat\(types\.(SMB_STRING_BUFFER_FORMAT_\w+)\)`)
 	restRe := regexp.MustCompile(`c\.(\w+) = raw\w+\[offset:\]`)
 	fixRe := regexp.MustCompile(`c\.(\w+) = raw\w+\[offset ?: ?offset ?\+ ?(\d+)\]`)
 	// pad lengths the decoder derives from the (constant) parameter-block length
@@ -174,6 +176,10 @@ func main() {
 		for _, m := range restRe.FindAllStringSubmatch(unmarshalSrc[c.Name], -1) {
 			rest[m[1]] = true
 		}
+		strFmt := map[string]string{}
+		for _, m := range fmtRe.FindAllStringSubmatch(marshalSrc[c.Name], -1) {
+			strFmt[m[1]] = m[2]
+		}
 		opt := map[string]bool{}
 		for _, m := range optRe.FindAllStringSubmatch(marshalSrc[c.Name], -1) {
 			opt[m[1]] = true
@@ -218,6 +224,9 @@ func main() {
 				if sl, ok := t.Underlying().(*types.Slice); ok {
 					if est, isStruct := sl.Elem().Underlying().(*types.Struct); isStruct {
 						fl.Kind = "emptyslice" // lists of structures are left empty (zero elements contribute no bytes)
+						if n, ok := sl.Elem().(*types.Named); ok && n.Obj().Name() == "SMB_DIRECTORY_INFORMATION" {
+							fl.Kind = "dirlist"
+						}
 						allInt := est.NumFields() > 0
 						var ef []field
 						for k := 0; k < est.NumFields(); k++ {
@@ -243,6 +252,9 @@ func main() {
 			}
 			if fl.Kind == "" {
 				fl.Kind = "skip"
+			}
+			if fl.Kind == "marshaler" && fl.MType == "SMB_STRING" {
+				fl.StrFmt = strFmt[fl.Name]
 			}
 			if fl.Kind == "bytes" {
 				fl.LenBy = lenBy[fl.Name]
@@ -352,20 +364,36 @@ var _ securitymode.SecurityMode
 				}
 			}
 		}
+		listExpr := map[string]string{}
+		{
+			k := 0
+			for _, f := range c.Fields {
+				if f.Kind == "structlist" {
+					listExpr[f.Name] = []string{"L", "L + 1"}[k%2]
+					k++
+				}
+			}
+		}
 		for _, f := range c.Fields {
 			tag := n + "." + f.Name
 			switch f.Kind {
 			case "unicodez":
 				fmt.Fprintf(&sb, "\tc.%s = noNUL16(vBytes(%q, L&^1))\n", f.Name, tag)
+			case "dirlist":
+				fmt.Fprintf(&sb, "\tfor i := 0; i < L/2; i++ {\n\t\tc.%s = append(c.%s, symDirInfo(%q+string(rune('a'+i))))\n\t}\n", f.Name, f.Name, tag)
 			case "structlist":
-				fmt.Fprintf(&sb, "\tfor i := 0; i < L; i++ {\n\t\tvar e %s\n", f.ElemT)
+				fmt.Fprintf(&sb, "\tfor i := 0; i < %s; i++ {\n\t\tvar e %s\n", listExpr[f.Name], f.ElemT)
 				for _, ef := range f.Elem {
 					fmt.Fprintf(&sb, "\t\te.%s = %s(vU%d(%q + string(rune('a'+i))))\n", ef.Name, ef.Type, 8*ef.Width, tag+"."+ef.Name)
 				}
 				fmt.Fprintf(&sb, "\t\tc.%s = append(c.%s, e)\n\t}\n", f.Name, f.Name)
 			case "int":
 				if f.CountOf != "" {
-					fmt.Fprintf(&sb, "\tc.%s = %s(L) // number of elements of %s (relation read from Unmarshal)\n", f.Name, f.Type, f.CountOf)
+					ce := listExpr[f.CountOf]
+					if ce == "" {
+						ce = "L"
+					}
+					fmt.Fprintf(&sb, "\tc.%s = %s(%s) // number of elements of %s (relation read from Unmarshal)\n", f.Name, f.Type, ce, f.CountOf)
 				} else if f.LenOf != "" {
 					fmt.Fprintf(&sb, "\tc.%s = %s(%s) // length of %s (relation read from Unmarshal)\n", f.Name, f.Type, lenExpr[f.Name], f.LenOf)
 				} else {
@@ -388,7 +416,10 @@ var _ securitymode.SecurityMode
 			case "intarray":
 				fmt.Fprintf(&sb, "\tfor i := 0; i < %d; i++ {\n\t\tc.%s[i] = %s(vU%d(%q + string(rune('a'+i))))\n\t}\n", f.N, f.Name, strings.SplitN(f.Type, "]", 2)[1], 8*f.Width, tag)
 			case "marshaler":
-				if fl, ok := fillers[f.MType]; ok {
+				if f.MType == "SMB_STRING" && strings.Contains(f.StrFmt, "VARIABLE_BLOCK") {
+					// a counted buffer: any byte values, NUL included
+					fmt.Fprintf(&sb, "\tc.%[1]s.SetBufferFormat(types.%[3]s)\n\tc.%[1]s.Buffer = vBytes(%[2]q, L)\n\tc.%[1]s.Length = types.USHORT(L)\n", f.Name, tag, f.StrFmt)
+				} else if fl, ok := fillers[f.MType]; ok {
 					fmt.Fprintf(&sb, "\t"+fl+"\n", f.Name, tag)
 				}
 			}
@@ -397,10 +428,17 @@ var _ securitymode.SecurityMode
 			fmt.Fprintf(&sb, "\tc.SetAndX(symAndX(%q)) // an arbitrary AndX block (command, reserved, offset)\n", n)
 		}
 		fmt.Fprintf(&sb, "}\n\nfunc H_CMD_%s() {\n\tL := vParam(\"len\")\n\tc := New%s()\n\tvfill%s(c, L)\n", n, n, n)
+		if c.AndX {
+			sb.WriteString("\twantAndX := *c.GetAndX() // the block the caller set: Marshal must emit it, not a replacement\n")
+		}
 		sb.WriteString("\traw, err := c.Marshal()\n")
 		fmt.Fprintf(&sb, "\tvCheck(err == nil, \"C03/%s/marshal-ok\")\n\tif err != nil {\n\t\treturn\n\t}\n", n)
 		fmt.Fprintf(&sb, "\tparams, data, ok := splitBlocks(raw, %q)\n\tif !ok {\n\t\treturn\n\t}\n", n)
-		fmt.Fprintf(&sb, "\tpos := 0\n\tif c.IsAndX() {\n\t\tpos = checkAndX(params, c.GetAndX(), %q)\n\t}\n\tblk, inData := params, false\n\t_, _ = blk, inData\n", n)
+		if c.AndX {
+			fmt.Fprintf(&sb, "\tpos := 0\n\tif c.IsAndX() {\n\t\tpos = checkAndX(params, &wantAndX, %q)\n\t}\n\tblk, inData := params, false\n\t_, _ = blk, inData\n", n)
+		} else {
+			fmt.Fprintf(&sb, "\tpos := 0\n\tvCheck(!c.IsAndX(), \"C04/%s/not-an-andx-command\")\n\tblk, inData := params, false\n\t_, _ = blk, inData\n", n)
+		}
 		layoutStopped := false
 		for _, f := range c.Fields {
 			if f.Cond && !layoutStopped {
@@ -438,6 +476,9 @@ var _ securitymode.SecurityMode
 			case "marshaler":
 				sb.WriteString(next)
 				fmt.Fprintf(&sb, "\t{\n\t\tenc, _ := c.%s.Marshal()\n\t\tpos = checkBytes(blk, pos, enc, %q)\n\t}\n", f.Name, id)
+			case "dirlist":
+				sb.WriteString(next)
+				fmt.Fprintf(&sb, "\tfor i := range c.%s {\n\t\tenc, _ := c.%s[i].Marshal()\n\t\tpos = checkBytes(blk, pos, enc, %q)\n\t}\n", f.Name, f.Name, id)
 			case "structlist":
 				sb.WriteString(next)
 				fmt.Fprintf(&sb, "\tfor i := range c.%s {\n\t\tenc, _ := c.%s[i].Marshal()\n\t\tpos = checkBytes(blk, pos, enc, %q)\n\t}\n", f.Name, f.Name, id)
@@ -461,7 +502,7 @@ var _ securitymode.SecurityMode
 		// round trip
 		fmt.Fprintf(&sb, "\td := New%s()\n\td.Init()\n\t_, err = d.Unmarshal(raw)\n\tvCheck(err == nil, \"C04/%s/unmarshal-of-own-encoding-ok\")\n\tif err == nil {\n", n, n)
 		if c.AndX {
-			fmt.Fprintf(&sb, "\t\tvCheck(d.GetAndX() != nil && c.GetAndX() != nil && *d.GetAndX() == *c.GetAndX(), \"C04/%s/andx/roundtrip\")\n", n)
+			fmt.Fprintf(&sb, "\t\tvCheck(d.GetAndX() != nil && *d.GetAndX() == wantAndX, \"C04/%s/andx/roundtrip\")\n", n)
 		}
 		for _, f := range c.Fields {
 			id := "C04/" + n + "/" + f.Name + "/roundtrip"
@@ -481,6 +522,8 @@ var _ securitymode.SecurityMode
 				fmt.Fprintf(&sb, "\t\tvCheck(vBytesEq(d.%s, c.%s), %q)\n", f.Name, f.Name, id)
 			case "words":
 				fmt.Fprintf(&sb, "\t\tvCheck(len(d.%s) == len(c.%s), %q)\n\t\tif len(d.%s) == len(c.%s) {\n\t\t\tfor i := range c.%s {\n\t\t\t\tvCheck(d.%s[i] == c.%s[i], %q)\n\t\t\t}\n\t\t}\n", f.Name, f.Name, "C04/"+n+"/"+f.Name+"/count-roundtrip", f.Name, f.Name, f.Name, f.Name, f.Name, id)
+			case "dirlist":
+				fmt.Fprintf(&sb, "\t\tvCheck(len(d.%s) == len(c.%s), %q)\n\t\tif len(d.%s) == len(c.%s) {\n\t\t\tfor i := range c.%s {\n\t\t\t\ta, _ := d.%s[i].Marshal()\n\t\t\t\tb, _ := c.%s[i].Marshal()\n\t\t\t\tvCheck(vBytesEq(a, b), %q)\n\t\t\t}\n\t\t}\n", f.Name, f.Name, "C04/"+n+"/"+f.Name+"/count-roundtrip", f.Name, f.Name, f.Name, f.Name, f.Name, id)
 			case "structlist":
 				fmt.Fprintf(&sb, "\t\tvCheck(len(d.%s) == len(c.%s), %q)\n\t\tif len(d.%s) == len(c.%s) {\n\t\t\tfor i := range c.%s {\n\t\t\t\tvCheck(d.%s[i] == c.%s[i], %q)\n\t\t\t}\n\t\t}\n", f.Name, f.Name, "C04/"+n+"/"+f.Name+"/count-roundtrip", f.Name, f.Name, f.Name, f.Name, f.Name, id)
 			case "marshaler":
